@@ -94,7 +94,7 @@ CHECKS = {
     "C16": {
         "lean": ["DrummerVerif.Props.C16"],
         "streams": [{"cmd": "diskcrash", "driver": "FsDriver", "sections": None, "eval_re": r"^case:(crash_point|double_crash_point)", "timeout": 3000,
-                     "args": {"quick": ["-n", "2", "-double", "3"], "thorough": ["-n", "12", "-double", "400"]}}],
+                     "args": {"quick": ["-n", "3", "-double", "3"], "thorough": ["-n", "12", "-double", "400"]}}],
         "rule": "DiskKVTest on a counting wrapper around vfs.NewStrictMem: EVERY mutating / syncing file-system operation index of each workload (workload 0 = first open; 3 updates; Sync; recovery from a foreign snapshot; 2 updates; Close+Open; 1 update; further workloads vary each part by seed) is a crash point (from that operation on nothing reaches stable storage, then ResetToSyncedState: all unsynced data and directory entries are lost), followed by reopen and the check 'applied index >= last acknowledged, data = updates up to that index on top of the last installed snapshot'; double crashes: for selected first crash points, every operation index of the recovering Open is a second crash point; the non-pebble part of the real trace of first open / snapshot recovery / reopen is compared with the model's sequences; evaluations = crash points (single + double), all distinct, exhaustive per workload",
         "assumptions": ["pebble: a synced batch is atomic and durable when it returns; open after a crash recovers an acknowledged prefix (crash points inside pebble are covered by the enumeration only)", "vfs.NewStrictMem is the definition of a crash"],
     },
